@@ -38,8 +38,10 @@ type Pub struct {
 	LostReply []int `json:"lost_reply,omitempty"`
 	// Slow: node indices whose append of this publish takes SlowMs of real time and then
 	// succeeds: a slow destination is not a failed one, and must not cost the others anything
-	Slow   []int `json:"slow,omitempty"`
-	SlowMs int   `json:"slow_ms,omitempty"`
+	// IdleBeforeMs: so much time passes on the (virtual) wall clock before this publish
+	IdleBeforeMs int64 `json:"idle_before_ms,omitempty"`
+	Slow         []int `json:"slow,omitempty"`
+	SlowMs       int   `json:"slow_ms,omitempty"`
 }
 
 type Case struct {
@@ -126,6 +128,9 @@ func run(c Case) (f *failure, nontrivial bool) {
 	type mark struct{ appends, calls int }
 	for pi, p := range c.Pubs {
 		payload := fmt.Sprintf("msg-%d", pi)
+		if p.IdleBeforeMs > 0 {
+			cl.Clock.Advance(time.Duration(p.IdleBeforeMs) * time.Millisecond)
+		}
 		unreach := map[int]bool{}
 		var ids []uint64
 		for _, u := range p.Unreachable {
@@ -314,6 +319,19 @@ func TestRandom(t *testing.T) {
 					}
 				}
 				c.Pubs = append(c.Pubs, Pub{Topic: topic, QoS: qos, LostReply: u})
+			}
+			// an outage that lasts: a remote node cannot be reached for many seconds (several failed
+			// publishes, wall-clock time passing), then it is back: the very next publishes reach it
+			if i == 0 && rapid.IntRange(0, 3).Draw(t, "outage") == 0 {
+				r := []int{rapid.SampledFrom(remotes).Draw(t, "outageNode")}
+				gap := int64(rapid.SampledFrom([]int{1000, 2600, 6000, 40000}).Draw(t, "outageGapMs"))
+				c.Pubs = append(c.Pubs,
+					Pub{Topic: topic, QoS: qos, Unreachable: r},
+					Pub{Topic: topic, QoS: qos, Unreachable: r, IdleBeforeMs: gap},
+					Pub{Topic: topic, QoS: qos, Unreachable: r, IdleBeforeMs: gap},
+					Pub{Topic: topic, QoS: qos, IdleBeforeMs: int64(rapid.SampledFrom([]int{0, 100, 900}).Draw(t, "backAfterMs"))},
+					Pub{Topic: topic, QoS: qos},
+					Pub{Topic: topic, QoS: qos, IdleBeforeMs: 300})
 			}
 			// sometimes one remote node is slow (real time): everything still arrives, everywhere
 			if len(remotes) >= 2 && i == 0 && rapid.IntRange(0, 5).Draw(t, "slow") == 0 {
